@@ -87,6 +87,9 @@ class Node(fm.TimeComponent):
     def _connect(self, start_time):
         self.calls.append("C")
         push = {} if self.spec.get("no_initial_push") else {f"out{j}": self.value(j, 0) for j in range(self.nout)}
+        deps = self.spec.get("push_deps")
+        if deps is not None and any(self.connector.in_data.get(f"in{i}") is None for i in deps):
+            push = {}  # initial state derived from some pulled inputs: publish only once they arrived
         self.try_connect(start_time, push_data=push)
         if self.status == fm.ComponentStatus.CONNECTED:
             for name, d in self.connector.in_data.items():
